@@ -11,9 +11,11 @@ from core import enc_arr, enc_bool, enc_dimspec, enc_list, enc_num, enc_nums, en
 
 ID = "C12"
 LEVEL = "proof"
-LEVEL_TEXT = ("Coq theorems, for all rational inputs (ties with a threshold included) and NaN, over the kernels regenerated from the current "
+LEVEL_TEXT = ("Coq theorems, for all rational inputs (ties with a threshold included), NaN and +inf / -inf forecasts, observations and thresholds, "
+              "over the kernels regenerated from the current "
               "source: the FIRM single-category kernel equals the stated false-alarm / miss penalties for both threshold assignments and "
-              "discount 0 / finite / inf, is NaN per output component exactly when an input is NaN, coincides with the regenerated Murphy "
+              "discount 0 / finite / inf (comparisons and distances in the extended reals; a penalty that does not apply is 0, never inf * 0), "
+              "is NaN per output component exactly when an input is NaN, coincides with the regenerated Murphy "
               "quantile / Huber / expectile elementary scores, and 'upper' is 'lower' on negated data with alpha <-> 1-alpha; the risk-matrix "
               "cell and its plain double sum equal sum_ij w_ij s_j(f_i,y_i); weight matrices are attached to probabilities sorted "
               "decreasingly; the warning-scaling algorithm equals its specification when max_level >= n_prob and is refuted otherwise. "
@@ -23,25 +25,48 @@ LEVEL_NOTE = ("trusted: translator + Xval semantics, hand models of the sums / g
               "binary64 rounding not modelled (tolerance 1e-9)")
 TECHNIQUE = "Coq proof over translator-regenerated kernels + extracted-model correspondence check (exhaustive tie grids)"
 SITES = ["C12.firm_single", "C12.firm_guards", "C12.murphy_quantile", "C12.murphy_huber", "C12.murphy_expectile", "C12.rms_cell", "C12.rms_guards"]
-RULE = ("(a) exhaustive FIRM tie grid: fcst, obs, threshold in {0,1,2,NaN}^3 x both assignments x discount {0,1/2,1,5,inf} x alpha {1/4,7/10}, "
-        "implementation vs regenerated kernel vs proved specification, plus the Murphy link and the mirror relation on the implementation; "
+RULE = ("(a) exhaustive FIRM tie grid: fcst, obs, threshold in {0,1,2,NaN,+inf,-inf}^3 x both assignments x discount {0,1/2,1,5,inf} x alpha {1/4,7/10}, "
+        "implementation vs regenerated kernel vs proved specification, plus the Murphy link (finite-or-NaN forecasts; observations and thetas "
+        "incl. +-inf; quantile / Huber / expectile) and the mirror relation on the implementation; (a') non-finite probe: fcst / obs over "
+        "{-inf,0,1,3,+inf,NaN} and {-1e308,0,1,1e308,+-inf} (sums and differences overflow), scalar and per-case thresholds incl. +-inf / "
+        "+-1e308, 1-3 weighted thresholds, discount {None,0,1,5/2,inf}, against the exact oracle in the extended reals; "
         "(b) random firm calls: 1-3 dims of size 1-3, obs on a dim subset, 1-3 thresholds each a scalar or an array with NaN, threshold weights "
         "scalar or array with NaN (and non-positive ones), all discount / assignment / alpha / request spellings incl. invalid ones; values on "
         "the grid k/2 shared with the thresholds so obs==threshold / fcst==threshold ties occur in most cases; 15% of them with data 0..6 stored "
-        "in a random (un)signed integer dtype, Python-int scalar thresholds and same-dtype array thresholds; (b') integer-dtype probe: 25 "
+        "in a random (un)signed integer dtype, Python-int scalar thresholds and same-dtype array thresholds, 15% with +inf / -inf poked into fcst, "
+        "obs and the thresholds; (b') integer-dtype probe: 25 "
         "(fcst, obs) pairs x {uint8..uint64, int8..int64, float32} x thresholds as Python ints / NumPy scalars / same-dtype DataArray / floats "
         "x discount {None,0,1,2,5/2,10,inf} x both assignments against the exact oracle on the values; (c) exhaustive risk-matrix cell "
         "grid (forecast probability on / off each threshold, obs 0/1/NaN, both assignments); (d) random risk_matrix_score calls with random "
-        "weight matrices, shuffled coordinates, NaN, weights, malformed inputs; (e) matrix_weights_to_array and weights_from_warning_scaling on "
+        "weight matrices, shuffled coordinates, NaN, weights, malformed inputs; (d') Dataset inputs: 2-3 forecast variables whose NaN positions "
+        "differ against an observation Dataset or DataArray (each variable must score as it does alone); "
+        "(e) matrix_weights_to_array and weights_from_warning_scaling on "
         "random and all small valid scaling matrices. A case is distinct by the hash of (function, inputs, options); non-trivial when an output "
         "is finite.")
 ASSUMPTIONS = ["severity labels are compared as numbers (the harness uses integer labels)",
+               "FIRM = weighted Murphy identity: forecasts finite or NaN (murphy_impl.py's zero array `fcst * 0.0` is NaN for an infinite forecast; "
+               "observations and thresholds may be infinite); very large finite values (1e308) are checked without discount_distance = inf",
                "a float-typed scaling matrix (rejected by dtype) is checked on the implementation only"]
 TRUSTED = ["hand models in coq/model/C12.v (threshold sums, Murphy NaN merge, guards, matrix_weights_to_array, _scaling_to_weight_matrix): tied by correspondence only"]
 
 NAN = float("nan")
 INF = float("inf")
+BIG = 1e308          # finite, but fcst + obs + threshold (or threshold - obs) overflows binary64
 FVARS = ["firm_score", "overforecast_penalty", "underforecast_penalty"]
+# known_findings.d/C12.json: `_single_category_score` multiplied the discounted distance min(t - o, d) by the 0/1 condition; with an
+# infinite observation (or threshold) the distance is -inf (or, for d = inf, +inf) where the condition is 0, and inf * 0 = NaN.
+# Only a deviation that is EXACTLY that behaviour (the oracle evaluated with `legacy=True`) is attributed to the finding.
+FINDING_INF = "firm-discount-infinite-obs"
+# harness self-check (core.run_check): counters every complete run must have incremented, one per predicate family / input class
+EXPECT_COUNTS = ["corpus_cases", "guard_boundary_probes", "firm_oracle_grid_points", "firm_oracle_grid_infinite_points", "firm_scalar_threshold_points",
+                 "firm_nonfinite_points", "firm_integer_dtype_points", "murphy_da_link_points", "rms_oracle_grid_points", "rms_oracle_grid_integer_obs_points", "rms_dataset_probe_points",
+                 "rms:dataset_vars_checked", "firm:oracle_checked", "firm:oracle_checked_infinite", "rms:oracle_checked", "wfs:oracle_checked",
+                 "mwa:oracle_checked", "firm_grid_points", "firm_grid_infinite_points", "murphy_link_points", "murphy_link_infinite_points",
+                 "firm_mirror_relations", "firm:ok", "firm:err:ValueError", "firm:assign=upper", "firm:assign=lower", "firm:discount=none",
+                 "firm:discount=0", "firm:discount=finite", "firm:discount=inf", "firm:array_threshold", "firm:array_threshold_weight",
+                 "firm:integer_dtype=", "firm:infinite_values", "firm:mean_of_cases_checked", "firm:murphy_link_checked",
+                 "firm:murphy_link_infinite", "rms_grid_points", "rms:ok", "rms:err:ValueError", "rms:double_sum_checked", "rms:non_interned_name",
+                 "rms:mean_of_cases_checked", "mwa:ok", "mwa:err:ValueError", "wfs:ok", "wfs:err:ValueError", "wfs:small_matrices_enumerated"]
 
 
 def S():
@@ -73,10 +98,42 @@ def fq(x):
     return None if np.isnan(x) else (x if np.isinf(x) else Fraction(x))
 
 
-def firm_cell_oracle(f, o, a, tws, d, assign):
-    """(total, over, under) of one forecast case: sum_j w_j * fixed-risk penalty at threshold t_j; NaN if any input is NaN"""
+FLOAT_MAX = Fraction(1.7976931348623157e308)
+
+
+def _xsub(a, b, binary64=False):
+    """difference in the extended reals: Fractions for finite values, +-inf floats, NaN for inf - inf of the same sign
+    (binary64=True: a finite difference beyond the binary64 range becomes +-inf, as in the implementation's arithmetic)"""
+    if isinstance(a, float) or isinstance(b, float):
+        return float(a) - float(b)
+    r = a - b
+    if binary64 and abs(r) > FLOAT_MAX:
+        return INF if r > 0 else -INF
+    return r
+
+
+def _dist(t, o, legacy=False):
+    """t - o in the extended reals; two equal infinities are at distance 0 (the observation sits on the threshold) --
+    legacy: inf - inf = NaN, and binary64 overflow of a finite difference, as in the unrepaired arithmetic"""
+    if isinstance(t, float) and isinstance(o, float) and t == o:
+        return NAN if legacy else Fraction(0)
+    return _xsub(t, o, legacy)
+
+
+def _xprod(w, c, scale):
+    return float(w) * float(c) * scale if isinstance(scale, float) else w * c * scale
+
+
+def firm_cell_oracle(f, o, a, tws, d, assign, legacy=False):
+    """(total, over, under) of one forecast case: sum_j w_j * fixed-risk penalty at threshold t_j; NaN if any input is NaN.
+    +inf / -inf forecasts, observations and thresholds are valid values: comparisons and the distance t - o are taken in the extended
+    reals (a penalty that does not apply is 0; an infinite distance is charged min(inf, d); observation = threshold is distance 0,
+    also for two equal infinities).
+    legacy=True: the behaviour of /repo before repo_fixes/firm-discount-infinite-obs.diff (distance * condition, inf * 0 = NaN);
+    used only to decide whether a deviation is exactly the recorded finding."""
     f, o = fq(f), fq(o)
     over = under = Fraction(0)
+    disc = not (d is None or d == 0)
     for t, w in tws:
         t, w = fq(t), fq(w)
         if f is None or o is None or t is None or w is None:
@@ -86,55 +143,73 @@ def firm_cell_oracle(f, o, a, tws, d, assign):
         miss = (f <= t < o) if lower else (f < t <= o)
 
         def scale(x):
-            if d is None or d == 0:
+            if not disc:
                 return 1
+            if isinstance(x, float) and np.isnan(x):
+                return NAN
             return x if d == INF else min(x, Fraction(d))
-        if fa:
-            over += w * (1 - Fraction(a)) * scale(t - o)
-        if miss:
-            under += w * Fraction(a) * scale(o - t)
+        s1, s2 = scale(_dist(t, o, legacy)), scale(_dist(o, t, legacy))
+        if fa or (legacy and isinstance(s1, float)):        # legacy: a non-finite distance leaks through `* 0`
+            over = over + (_xprod(w, 1 - Fraction(a), s1) if fa else NAN)
+        if miss or (legacy and isinstance(s2, float)):
+            under = under + (_xprod(w, Fraction(a), s2) if miss else NAN)
     return (over + under, over, under)
 
 
-def firm_oracle_arrays(c):
+def known_key(x, true_e, legacy_e, d):
+    """FINDING_INF iff discounting is on and the deviating value is exactly what the unrepaired `distance * condition` gives"""
+    if d is None or d == 0 or core.close(x, true_e):
+        return None
+    return FINDING_INF if core.close(x, legacy_e) else None
+
+
+def firm_oracle_arrays(c, legacy=False):
     ths = [t if isinstance(t, xr.DataArray) else xr.DataArray(float(t)) for t in c["ths"]]
     wts = [t if isinstance(t, xr.DataArray) else xr.DataArray(float(t)) for t in c["wts"]]
     arrs = xr.broadcast(c["fcst"], c["obs"], *ths, *wts)
     dims = arrs[0].dims
     flat = [np.asarray(a.transpose(*dims).values, dtype=float).ravel() for a in arrs]
     k = len(ths)
-    out = np.array([firm_cell_oracle(flat[0][n], flat[1][n], c["alpha"], [(flat[2 + j][n], flat[2 + k + j][n]) for j in range(k)], c["d"], c["assign"])
+    out = np.array([firm_cell_oracle(flat[0][n], flat[1][n], c["alpha"], [(flat[2 + j][n], flat[2 + k + j][n]) for j in range(k)], c["d"], c["assign"], legacy)
                     for n in range(flat[0].size)], dtype=float)
     return {v: arrs[0].copy(data=out[:, i].reshape(arrs[0].shape)) for i, v in enumerate(FVARS)}
 
 
-def compare_with_oracle(ctx, what, oracle_pc, weights, result, desc):
-    """reduced implementation result vs NaN-skipping mean of weight * exact per-case oracle over the dims the result no longer has"""
+def _reduced_matches(oracle_pc, weights, result):
     x = oracle_pc if weights is None else oracle_pc * weights
     red = [d for d in x.dims if d not in result.dims]
-    exp = x.mean(dim=red) if red else x
+    with np.errstate(invalid="ignore"):
+        exp = x.mean(dim=red) if red else x
     try:
         exp = exp.transpose(*result.dims)
         r2, exp = xr.align(result, exp, join="inner")
-        ok = r2.shape == result.shape and bool(np.allclose(np.asarray(r2, dtype=float), np.asarray(exp, dtype=float), rtol=0, atol=1e-9, equal_nan=True))
-        result = r2
+        a, b = np.asarray(r2, dtype=float), np.asarray(exp, dtype=float)
+        ok = r2.shape == result.shape and bool(np.allclose(a, b, rtol=1e-9, atol=1e-9, equal_nan=True))
+        return ok, exp, r2
     except ValueError:
-        ok = False
+        return False, exp, result
+
+
+def compare_with_oracle(ctx, what, oracle_pc, weights, result, desc, legacy_pc=None, key=None):
+    """reduced implementation result vs NaN-skipping mean of weight * exact per-case oracle over the dims the result no longer has.
+    legacy_pc / key: a deviation that coincides with the per-case values of a recorded finding is reported under that finding's key"""
+    ok, exp, r2 = _reduced_matches(oracle_pc, weights, result)
     if not ok:
-        ctx.violation(what, desc, str(np.asarray(exp).tolist())[:200], str(np.asarray(result).tolist())[:200])
+        fk = key if legacy_pc is not None and _reduced_matches(legacy_pc, weights, result)[0] else None
+        ctx.violation(what, desc, str(np.asarray(exp).tolist())[:200], str(np.asarray(r2).tolist())[:200], finding_key=fk)
     return ok
 
 
 def firm_oracle_grid(ctx):
     """the FIRM tie grid through the PUBLIC firm(), against the exact oracle (both assignments; values equal to the threshold)"""
     CAT, _, _ = S()
-    vals = [0.0, 1.0, 2.0, NAN]
+    vals = [0.0, 1.0, 2.0, NAN, INF, -INF]      # +inf / -inf are valid forecasts, observations and thresholds
     cases = list(itertools.product(vals, repeat=3))
     idx = {"case": range(len(cases))}
     f = xr.DataArray([c[0] for c in cases], dims=["case"], coords=idx)
     o = xr.DataArray([c[1] for c in cases], dims=["case"], coords=idx)
     t = xr.DataArray([c[2] for c in cases], dims=["case"], coords=idx)
-    n = 0
+    n = n_inf = 0
     for assign in ("upper", "lower"):
         for d in (0.0, 0.5, 1.0, 5.0, INF, None):
             for a in (Fraction(1, 4), Fraction(7, 10)):
@@ -146,14 +221,17 @@ def firm_oracle_grid(ctx):
                     for k, (fv, ov, tv) in enumerate(cases):
                         exp = firm_cell_oracle(fv, ov, a, [(tv, wt)], d, assign)
                         n += 1
-                        for name, e in zip(FVARS, exp):
+                        n_inf += any(np.isinf(v) for v in (fv, ov, tv))
+                        for i_, (name, e) in enumerate(zip(FVARS, exp)):
                             x = float(r[name].values[k])
                             if not core.close(x, e):
-                                ctx.violation(f"firm {name} differs from the stated fixed-risk penalty (exact oracle)",
+                                leg = firm_cell_oracle(fv, ov, a, [(tv, wt)], d, assign, legacy=True)[i_]
+                                ctx.violation(f"firm {name} differs from the stated fixed-risk penalty (exact oracle; +inf / -inf are valid values)",
                                               {"fcst": fv, "obs": ov, "threshold": tv, "threshold_weight": wt, "risk_parameter": a, "discount_distance": d,
-                                               "threshold_assignment": assign}, e, x)
+                                               "threshold_assignment": assign}, e, x, finding_key=known_key(x, e, leg, d))
     ctx.case(("firm_oracle_grid",), nontrivial=True)
     ctx.count("firm_oracle_grid_points", n)
+    ctx.count("firm_oracle_grid_infinite_points", n_inf)
 
 
 def firm_scalar_threshold_probe(ctx):
@@ -185,6 +263,52 @@ def firm_scalar_threshold_probe(ctx):
                                           dict(case0, fcst=fv, obs=ov), e, x)
     ctx.case(("firm_scalar_threshold_probe",), nontrivial=True)
     ctx.count("firm_scalar_threshold_points", n)
+
+
+def firm_nonfinite_probe(ctx):
+    """+inf / -inf and finite values near the binary64 limit (fcst + obs + threshold, or threshold - obs, overflows) in fcst, obs and the
+    thresholds (plain floats in the list, and a per-case DataArray), several thresholds with weights, discounting off / finite / inf:
+    infinite values are valid data -- inf above every threshold is a clear false alarm, obs = inf a clear miss -- so every per-case
+    component equals sum_j w_j * penalty_j evaluated in the extended reals (exact oracle); only NaN inputs give NaN"""
+    CAT, _, _ = S()
+    a = Fraction(3, 10)
+    n = 0
+    sets = [("infinite", [-INF, 0.0, 1.0, 3.0, INF, NAN], (None, 0.0, 1.0, 2.5, INF)),
+            # magnitudes near 1e308: the distance t - o overflows to inf (min(inf, d) = d is still right); d = inf is left out here
+            # because the exact penalty 2e308 * alpha then exceeds binary64 by itself
+            ("huge", [-BIG, 0.0, 1.0, BIG, INF, -INF], (None, 0.0, 1.0, 2.5))]
+    for kind, vals, discounts in sets:
+        cases = [(a_, b_) for a_ in vals for b_ in vals]
+        idx = {"case": range(len(cases))}
+        f = xr.DataArray([c[0] for c in cases], dims=["case"], coords=idx)
+        o = xr.DataArray([c[1] for c in cases], dims=["case"], coords=idx)
+        big = BIG if kind == "huge" else 7.0
+        tda = xr.DataArray([[2.0, INF, -INF, 0.0, big, -big, NAN][k % 7] for k in range(len(cases))], dims=["case"], coords=idx)
+        specs = [([2.0, 4.0], [1.0, 2.0]), ([INF], [1.0]), ([-INF, 1.0], [1.0, 2.0]), ([0.0, big, -big], [1.0, 0.5, 3.0]), ([tda, 1.0], [2.0, 1.0]),
+                 ([-INF, INF, tda], [1.0, 1.0, 1.0])]
+        for assign in ("lower", "upper"):
+            for d in discounts:
+                for ths, wts in specs:
+                    st, r = core.call_impl(CAT.firm, f, o, float(a), ths, wts, discount_distance=d, preserve_dims="all", threshold_assignment=assign)
+                    case0 = {"categorical_thresholds": [gens.da_repr(t)["values"] if isinstance(t, xr.DataArray) else t for t in ths], "threshold_weights": wts,
+                             "risk_parameter": a, "discount_distance": d, "threshold_assignment": assign}
+                    ctx.case(("firm_nonfinite", kind, assign, str(d), str(case0["categorical_thresholds"])))
+                    if st != "ok":
+                        ctx.violation("firm raises on valid inputs (infinite / very large values)", case0, "values", r)
+                        continue
+                    for k, (fv, ov) in enumerate(cases):
+                        tws = [(float(t.values[k]) if isinstance(t, xr.DataArray) else t, w) for t, w in zip(ths, wts)]
+                        exp = firm_cell_oracle(fv, ov, a, tws, d, assign)
+                        n += 1
+                        for i_, (name, e) in enumerate(zip(FVARS, exp)):
+                            x = float(r[name].values[k])
+                            if not core.close(x, e):
+                                leg = firm_cell_oracle(fv, ov, a, tws, d, assign, legacy=True)[i_]
+                                ctx.violation(f"firm {name} with infinite / very large values differs from sum_j w_j * penalty_j (exact oracle; +inf / -inf are "
+                                              "valid forecasts, observations and thresholds, only NaN gives NaN)",
+                                              dict(case0, fcst=fv, obs=ov, thresholds_at_this_case=[t for t, _ in tws]), e, x, finding_key=known_key(x, e, leg, d))
+    ctx.case(("firm_nonfinite_probe",), nontrivial=True)
+    ctx.count("firm_nonfinite_points", n)
 
 
 INT_DTYPES = ["uint8", "uint16", "uint32", "uint64", "int8", "int16", "int32", "int64"]
@@ -243,14 +367,15 @@ def murphy_da_link(ctx):
     murphy_score (total / over / under) vs the exact oracle and vs firm with the same per-case thresholds"""
     CAT, CON, _ = S()
     vals = [0.0, 1.0, 2.0, NAN]
-    cases = list(itertools.product(vals, repeat=3))
+    xvals = vals + [INF, -INF]       # observations and thetas may be infinite (forecasts: finite or NaN, see firm_grid)
+    cases = list(itertools.product(vals, xvals, xvals))
     idx = {"case": range(len(cases))}
     f = xr.DataArray([c[0] for c in cases], dims=["case"], coords=idx)
     o = xr.DataArray([c[1] for c in cases], dims=["case"], coords=idx)
     t = xr.DataArray([c[2] for c in cases], dims=["case"], coords=idx)
     n = 0
     for a in (Fraction(1, 4), Fraction(7, 10)):
-        for d, functional, hub in ((0.0, "quantile", None), (0.5, "huber", 0.5), (5.0, "huber", 5.0)):
+        for d, functional, hub in ((0.0, "quantile", None), (0.5, "huber", 0.5), (5.0, "huber", 5.0), (INF, "expectile", None)):
             st, mu = core.call_impl(CON.murphy_score, f, o, t, functional=functional, alpha=float(a), huber_a=hub, decomposition=True, preserve_dims="all")
             st2, fi = core.call_impl(CAT.firm, f, o, float(a), [t], [1.0], discount_distance=d, preserve_dims="all")
             if st != "ok" or st2 != "ok":
@@ -260,11 +385,12 @@ def murphy_da_link(ctx):
                 exp = firm_cell_oracle(fv, ov, a, [(tv, 1.0)], d, "lower")
                 case = {"fcst": fv, "obs": ov, "theta (DataArray element)": tv, "alpha": a, "functional": functional, "huber_a": hub}
                 n += 1
-                for name, mvar, e in zip(FVARS, ("total", "overforecast", "underforecast"), exp):
+                for i_, (name, mvar, e) in enumerate(zip(FVARS, ("total", "overforecast", "underforecast"), exp)):
                     x, y = float(mu[mvar].values[k]), float(fi[name].values[k])
                     if not same(x, y):
+                        leg = firm_cell_oracle(fv, ov, a, [(tv, 1.0)], d, "lower", legacy=True)[i_]
                         ctx.violation(f"firm {name} with per-case thresholds differs from the Murphy {functional} elementary score at theta = threshold (DataArray thetas)",
-                                      case, x, y)
+                                      case, x, y, finding_key=known_key(y, e, leg, d) if core.close(x, e) else None)
                     elif not core.close(x, e):
                         ctx.violation(f"Murphy {functional} elementary score ({mvar}) with DataArray thetas differs from the stated penalty (NaN theta gives NaN) (exact oracle)",
                                       case, e, x)
@@ -289,8 +415,12 @@ def firm_oracle_random(ctx, n):
                 ctx.violation("firm raises on a valid call", desc, "values / ValueError for the request", impl[1])
             continue
         orc = firm_oracle_arrays(c)
+        leg = firm_oracle_arrays(c, legacy=True) if c["inf"] and c["d"] else None
+        if c["inf"]:
+            ctx.count("firm:oracle_checked_infinite")
         for v in FVARS:
-            compare_with_oracle(ctx, f"firm {v} differs from the weighted NaN-skipping mean of sum_j w_j * penalty_j (exact oracle)", orc[v], c["w"], impl[1][v], desc)
+            compare_with_oracle(ctx, f"firm {v} differs from the weighted NaN-skipping mean of sum_j w_j * penalty_j (exact oracle)", orc[v], c["w"], impl[1][v], desc,
+                                legacy_pc=leg[v] if leg else None, key=FINDING_INF)
 
 
 def rms_case_oracle(fs, os_, ps, W, assign):
@@ -347,6 +477,22 @@ def rms_oracle_grid(ctx):
             if not core.close(x, exp):
                 ctx.violation("risk_matrix_score differs from sum_ij w_ij s_j(f_i, y_i) (exact oracle)",
                               {"fcst": fv, "obs": ov, "prob_thresholds": [0.75, 0.25, 0.5], "weights": [1.0, 2.0, 3.5], "threshold_assignment": assign}, exp, x)
+    # observations stored as unsigned / signed integers or booleans (0/1 flags; the function only compares them): same scores
+    n_int = 0
+    for dt in ("uint8", "int64", "bool", "float32"):
+        cs = [(a, b) for a in fvals for b in (0.0, 1.0)]
+        fi = xr.DataArray([[c[0]] for c in cs], dims=["case", "sev"], coords={"case": range(len(cs)), "sev": [0]})
+        oi = xr.DataArray(np.array([[c[1]] for c in cs]).astype(dt), dims=["case", "sev"], coords={"case": range(len(cs)), "sev": [0]})
+        for assign in ("upper", "lower"):
+            st, r = core.call_impl(EM.risk_matrix_score, fi, oi, dw, "sev", "prob", threshold_assignment=assign, preserve_dims="all")
+            for k, (fv, ov) in enumerate(cs):
+                exp = rms_case_oracle([fv], [ov], [0.75, 0.25, 0.5], [[1.0, 2.0, 3.5]], assign)
+                x = float(r.values[k]) if st == "ok" else r
+                n_int += 1
+                if st != "ok" or not core.close(x, exp):
+                    ctx.violation(f"risk_matrix_score with observations stored as {dt} differs from sum_ij w_ij s_j(f_i, y_i) (exact oracle)",
+                                  {"fcst": fv, "obs": ov, "obs dtype": dt, "prob_thresholds": [0.75, 0.25, 0.5], "weights": [1.0, 2.0, 3.5], "threshold_assignment": assign}, exp, x)
+    ctx.count("rms_oracle_grid_integer_obs_points", n_int)
     # decision points with zero weight still belong to the sum: a missing forecast / observation in a zero-weight severity
     # category (or at a zero-weight threshold) makes the case NaN, it is not trimmed away
     dw0 = xr.DataArray([[1.0, 0.0], [2.0, 0.0], [0.0, 0.0]], dims=["prob", "sev"], coords={"prob": [0.25, 0.5, 0.75], "sev": [0, 1]})
@@ -364,6 +510,77 @@ def rms_oracle_grid(ctx):
                                "prob_thresholds": [0.25, 0.5, 0.75], "threshold_assignment": assign}, exp, x)
     ctx.case(("rms_oracle_grid",), nontrivial=True)
     ctx.count("rms_oracle_grid_points", n)
+
+
+def rms_dataset_probe(ctx, n):
+    """risk_matrix_score with xr.Dataset inputs: several forecast variables (models / lead times) whose NaN positions differ, scored
+    against a Dataset or a single DataArray of observations (and the other way round): every variable must score exactly as it does
+    alone as a DataArray -- a missing value in one variable must not blank a forecast case of another one -- i.e. per variable the
+    (weighted NaN-skipping mean of the) double sum over severity categories and probability thresholds of ITS OWN forecast (exact oracle)"""
+    _, _, EM = S()
+    rng = ctx.rng
+    sevs = [0, 1, 2]
+    dw = xr.DataArray([[1.0, 2.0, 3.0], [4.0, 5.0, 6.0]], dims=["prob", "sev"], coords={"prob": [0.25, 0.5], "sev": sevs})
+    co = {"time": [0, 1, 2, 3], "sev": sevs}
+    base_f = np.array([[0.25, 0.25, 0.0], [0.75, 0.5, 0.0], [1.0, 0.5, 0.5], [0.0, 0.0, 0.25]])
+    base_o = np.array([[1.0, 0.0, 0.0], [1.0, 1.0, 0.0], [1.0, 1.0, 1.0], [0.0, 0.0, 1.0]])
+
+    def holes(arr, where):
+        a = arr.copy()
+        for (i, j) in where:
+            a[i, j] = NAN
+        return xr.DataArray(a, dims=["time", "sev"], coords=co)
+    probes = []
+    # deterministic: variable a has a hole where b is complete (and the other way round), c has none; obs Dataset with its own holes / one DataArray
+    fa, fb, fc = holes(base_f, [(2, 0)]), holes(base_f[::-1].copy(), [(0, 1), (3, 2)]), holes(base_f, [])
+    oa, ob, oc = holes(base_o, []), holes(base_o, [(1, 1)]), holes(base_o[::-1].copy(), [(3, 0)])
+    probes.append(({"a": fa, "b": fb, "c": fc}, {"a": oa, "b": ob, "c": oc}))
+    probes.append(({"a": fa, "b": fb, "c": fc}, oa))
+    probes.append(({"a": fa, "b": fb, "c": fc}, ob))
+    probes.append((fc, {"a": oa, "b": ob, "c": oc}))
+    for _ in range(n):           # random: 2-3 variables, every variable its own NaN pattern in fcst and obs
+        names = ["a", "b", "c"][:rng.randint(2, 3)]
+
+        def rnd(vals, p):
+            return holes(np.array([[rng.choice(vals) for _ in sevs] for _ in co["time"]], dtype=float),
+                         [(i, j) for i in range(4) for j in range(3) if rng.random() < p])
+        fds = {v: rnd([0.0, 0.25, 0.5, 0.75, 1.0], rng.choice([0.0, 0.15, 0.3])) for v in names}
+        ods = {v: rnd([0.0, 1.0], rng.choice([0.0, 0.15])) for v in names}
+        probes.append((fds, ods if rng.random() < 0.6 else ods[names[0]]))
+    npts = 0
+    for fds, ods in probes:
+        for assign in ("lower", "upper"):
+            w = xr.DataArray([1.0, 2.0, 0.5, 3.0], dims=["time"], coords={"time": co["time"]}) if rng.random() < 0.4 else None
+            for kw in ({"preserve_dims": "all"}, {}):
+                f_in = xr.Dataset(fds) if isinstance(fds, dict) else fds
+                o_in = xr.Dataset(ods) if isinstance(ods, dict) else ods
+                kws = dict(kw, threshold_assignment=assign, **({"weights": w} if w is not None else {}))
+                st, r = core.call_impl(EM.risk_matrix_score, f_in, o_in, dw, "sev", "prob", **kws)
+                names = sorted(fds) if isinstance(fds, dict) else sorted(ods)
+                desc = {"fn": "risk_matrix_score", "fcst": {v: gens.da_repr(x) for v, x in fds.items()} if isinstance(fds, dict) else gens.da_repr(fds),
+                        "obs": {v: gens.da_repr(x) for v, x in ods.items()} if isinstance(ods, dict) else gens.da_repr(ods),
+                        "decision_weights": gens.da_repr(dw), "weights": gens.da_repr(w), **kws}
+                ctx.case(("rms_dataset", str(desc)), st == "ok")
+                if st != "ok":
+                    ctx.violation("risk_matrix_score raises on valid Dataset inputs", desc, "a Dataset of scores", r)
+                    continue
+                for v in names:
+                    fv = fds[v] if isinstance(fds, dict) else fds
+                    ov = ods[v] if isinstance(ods, dict) else ods
+                    npts += 1
+                    ctx.count("rms:dataset_vars_checked")
+                    c = dict(fcst=fv, obs=ov, dw=dw, assign=assign)
+                    if v not in r:
+                        ctx.violation("risk_matrix_score on Dataset inputs lost a variable", dict(desc, variable=v), v, str(list(r.data_vars)))
+                        continue
+                    compare_with_oracle(ctx, f"risk_matrix_score on Dataset inputs: variable '{v}' differs from the (weighted NaN-skipping mean of the) double sum "
+                                        "sum_ij w_ij s_j(f_i, y_i) of its own forecast and observation (exact oracle) -- a variable must score as it does alone "
+                                        "as a DataArray, whatever is missing in the other variables", rms_oracle_array(c), w, r[v], dict(desc, variable=v))
+                    alone = core.call_impl(EM.risk_matrix_score, fv, ov, dw, "sev", "prob", **kws)
+                    if alone[0] != "ok" or not np.allclose(np.asarray(alone[1], dtype=float), np.asarray(r[v].transpose(*alone[1].dims), dtype=float), rtol=0, atol=1e-12, equal_nan=True):
+                        ctx.violation(f"risk_matrix_score on Dataset inputs: variable '{v}' differs from the same call on that variable alone (DataArray)",
+                                      dict(desc, variable=v), str(np.asarray(alone[1]).tolist())[:200], str(np.asarray(r[v]).tolist())[:200])
+    ctx.count("rms_dataset_probe_points", npts)
 
 
 def rms_oracle_random(ctx, n):
@@ -454,6 +671,7 @@ def mwa_oracle_check(ctx, n):
         impl = core.call_impl(EM.matrix_weights_to_array, np.array([[float(x) for x in r_] for r_ in M]), "sev", list(range(nc)), "prob", [float(p) for p in ps])
         desc = {"fn": "matrix_weights_to_array", "matrix_weights": M, "prob_threshold_coords": ps}
         ctx.case(("mwa_oracle", str(M), str(ps)), impl[0] == "ok")
+        ctx.count("mwa:oracle_checked")
         if impl[0] != "ok":
             ctx.violation("matrix_weights_to_array raises on valid input", desc, "an array", impl[1])
             continue
@@ -467,9 +685,11 @@ def mwa_oracle_check(ctx, n):
 def oracle_checks(ctx, scale=1):
     firm_oracle_grid(ctx)
     firm_scalar_threshold_probe(ctx)
+    firm_nonfinite_probe(ctx)
     firm_integer_dtype_probe(ctx)
     murphy_da_link(ctx)
     rms_oracle_grid(ctx)
+    rms_dataset_probe(ctx, ctx.n(8 * scale, 80 * scale))
     firm_oracle_random(ctx, ctx.n(60 * scale, 600 * scale))
     rms_oracle_random(ctx, ctx.n(60 * scale, 600 * scale))
     wfs_oracle_check(ctx, ctx.n(40 * scale, 400 * scale))
@@ -481,12 +701,12 @@ def oracle_checks(ctx, scale=1):
 # ------------------------------------------------------------------------------------------
 def firm_grid(ctx):
     CAT, CON, _ = S()
-    vals = [0.0, 1.0, 2.0, NAN]
+    vals = [0.0, 1.0, 2.0, NAN, INF, -INF]      # +inf / -inf: valid values (C12_firm_single_spec_inf)
     cases = list(itertools.product(vals, repeat=3))
     f = xr.DataArray([c[0] for c in cases], dims=["case"], coords={"case": range(len(cases))})
     o = xr.DataArray([c[1] for c in cases], dims=["case"], coords={"case": range(len(cases))})
     t = xr.DataArray([c[2] for c in cases], dims=["case"], coords={"case": range(len(cases))})
-    n = 0
+    n = n_inf = 0
     impl_cache = {}
     for assign in ("lower", "upper"):
         for d in (0.0, 0.5, 1.0, 5.0, INF):
@@ -505,19 +725,27 @@ def firm_grid(ctx):
                     impl = [float(r[v].values[k]) for v in FVARS]
                     ctx.case(("firm_single", fv, ov, tv, a, d, assign), nontrivial=not np.isnan(impl[0]))
                     n += 1
-                    for name, x, g, s in zip(FVARS, impl, gen, spec):
-                        if not core.close(x, s):
-                            ctx.violation(f"firm {name} differs from the stated penalty", case, s, x)
+                    n_inf += any(np.isinf(v) for v in (fv, ov, tv))
+                    for i_, (name, x, g, s_) in enumerate(zip(FVARS, impl, gen, spec)):
+                        if not core.close(x, s_):
+                            leg = firm_cell_oracle(fv, ov, Fraction(str(a)), [(tv, 1.0)], d, assign, legacy=True)[i_]
+                            ctx.violation(f"firm {name} differs from the stated penalty (proved specification; +inf / -inf are valid values)", case, s_, x,
+                                          finding_key=known_key(x, s_, leg, d))
                         if not core.close(x, g):
                             ctx.tie_fail(f"gen_firm_single {name} vs implementation", case, x, g)
     ctx.count("firm_grid_points", n)
+    ctx.count("firm_grid_infinite_points", n_inf)
     # Murphy link (lower assignment): firm = Murphy elementary score at theta = threshold
-    fo = [(a_, b_) for a_ in vals for b_ in vals]
+    # observations and thresholds may be infinite; the FORECAST stays finite-or-NaN: murphy_impl.py builds its zero array as `fcst * 0.0`,
+    # NaN for an infinite forecast, so murphy_score returns 0 instead of the penalty there (quantile / Huber) -- a defect of murphy_score
+    # that is being repaired separately; FIRM itself is checked with infinite forecasts above
+    fo = [(a_, b_) for a_ in [0.0, 1.0, 2.0, NAN] for b_ in vals]
     f2 = xr.DataArray([c[0] for c in fo], dims=["case"], coords={"case": range(len(fo))})
     o2 = xr.DataArray([c[1] for c in fo], dims=["case"], coords={"case": range(len(fo))})
+    n_link = n_link_inf = 0
     for a in (0.25, 0.7):
-        for d, functional, hub in ((0.0, "quantile", None), (0.5, "huber", 0.5), (5.0, "huber", 5.0)):
-            for tv in (0.0, 1.0, 2.0):
+        for d, functional, hub in ((0.0, "quantile", None), (0.5, "huber", 0.5), (5.0, "huber", 5.0), (INF, "expectile", None)):
+            for tv in (0.0, 1.0, 2.0, INF, -INF):
                 st, r = core.call_impl(CAT.firm, f2, o2, a, [tv], [1.0], discount_distance=d, preserve_dims="all")
                 st2, mu = core.call_impl(CON.murphy_score, f2, o2, [tv], functional=functional, alpha=a, huber_a=hub, decomposition=True, preserve_dims="all")
                 if st != "ok" or st2 != "ok":
@@ -525,15 +753,22 @@ def firm_grid(ctx):
                     continue
                 for k, (fv, ov) in enumerate(fo):
                     case = {"fcst": fv, "obs": ov, "threshold": tv, "risk_parameter": a, "discount_distance": d, "functional": functional}
-                    trip = [float(mu[v].sel(theta=tv).values[k]) for v in ("total", "overforecast", "underforecast")]
+                    trip = [float(mu[v].isel(theta=0).values[k]) for v in ("total", "overforecast", "underforecast")]
                     m = core.dec_nums(ctx.model("c12_murphy_point", enc_list([enc_num(fv), enc_num(ov), enc_num(tv), enc_num(Fraction(str(a))),
                                                                               enc_num(hub if hub else 1), enc_str(functional)])))
                     ctx.case(("murphy_link", fv, ov, tv, a, d), nontrivial=not np.isnan(trip[0]))
-                    for name, x, y, q in zip(FVARS, [float(r[v].values[k]) for v in FVARS], trip, m):
+                    n_link += 1
+                    n_link_inf += bool(np.isinf(ov) or np.isinf(tv))
+                    for i_, (name, x, y, q) in enumerate(zip(FVARS, [float(r[v].values[k]) for v in FVARS], trip, m)):
                         if not same(x, y):
-                            ctx.violation(f"firm {name} differs from the Murphy {functional} elementary score at theta=threshold", case, y, x)
+                            tru = firm_cell_oracle(fv, ov, Fraction(str(a)), [(tv, 1.0)], d, "lower")[i_]
+                            leg = firm_cell_oracle(fv, ov, Fraction(str(a)), [(tv, 1.0)], d, "lower", legacy=True)[i_]
+                            ctx.violation(f"firm {name} differs from the Murphy {functional} elementary score at theta=threshold", case, y, x,
+                                          finding_key=known_key(x, tru, leg, d) if core.close(y, tru) else None)
                         if not core.close(y, q):
                             ctx.tie_fail(f"murphy_point model vs murphy_score ({name})", case, y, q)
+    ctx.count("murphy_link_points", n_link)
+    ctx.count("murphy_link_infinite_points", n_link_inf)
     # mirror: upper(f,o,a,t,d) = lower(-f,-o,1-a,-t,d) with over <-> under
     for d in (0.0, 0.5, 1.0, 5.0, INF):
         for a in (0.25, 0.7):
@@ -572,11 +807,17 @@ def gen_firm_case(ctx):
     obs = gens.rand_da(rng, osizes, dims=odims, values=grid, nan_p=0.0 if idt else rng.choice([0.0, 0.15]))
     if idt:
         fcst, obs = fcst.astype(idt), obs.astype(idt)
+    # infinite mode: +inf / -inf (valid, comparable values) in the forecast, the observation and the thresholds
+    inf = (not idt) and rng.random() < 0.15
+    if inf:
+        fcst = poke_some(rng, fcst, [INF, -INF], 0.2)
+        obs = poke_some(rng, obs, [INF, -INF], 0.3)
     k = rng.randint(1, 3)
     ths, wts = [], []
     for _ in range(k):
         if rng.random() < 0.5:
-            ths.append(NAN if rng.random() < 0.08 else int(rng.choice(grid)) if idt else float(rng.choice(grid)))
+            ths.append(NAN if rng.random() < 0.08 else rng.choice([INF, -INF]) if inf and rng.random() < 0.3 else
+                       int(rng.choice(grid)) if idt else float(rng.choice(grid)))
         elif idt and rng.random() < 0.6:
             ths.append(gens.rand_da(rng, dict(sizes), dims=gens.sub_dims(rng, sizes, p_drop=0.5), values=grid).astype(idt))
         else:
@@ -587,6 +828,8 @@ def gen_firm_case(ctx):
                 td = td + ["y"]
                 bad.append("thr_extra_dim")
             ths.append(gens.rand_da(rng, ts, dims=td, values=grid, nan_p=rng.choice([0.0, 0.2])))
+            if inf and rng.random() < 0.5:
+                ths[-1] = poke_some(rng, ths[-1], [INF, -INF], 0.25)
         if rng.random() < 0.5:
             wts.append(float(rng.choice([Fraction(1, 2), 1, 2, 3])))
         else:
@@ -634,7 +877,18 @@ def gen_firm_case(ctx):
             wd = wd + ["q"]
         w = gens.rand_da(rng, ws, dims=wd, lo=0, hi=3, nan_p=0.1 if rng.random() < 0.3 else 0.0)
     rd, pd = gens.rand_dimspec(rng, list(sizes), allow_bad=rng.random() < 0.3)
-    return dict(fcst=fcst, obs=obs, alpha=alpha, ths=ths, wts=wts, d=d, assign=assign, w=w, rd=rd, pd=pd, bad=bad, idt=idt)
+    return dict(fcst=fcst, obs=obs, alpha=alpha, ths=ths, wts=wts, d=d, assign=assign, w=w, rd=rd, pd=pd, bad=bad, idt=idt, inf=inf)
+
+
+def poke_some(rng, da, values, p):
+    """replace each element with probability p (at least one, if any) by one of `values`"""
+    if not da.size:
+        return da
+    flat = np.asarray(da.values, dtype=float).reshape(-1).copy()
+    hit = [i for i in range(flat.size) if rng.random() < p] or [rng.randrange(flat.size)]
+    for i in hit:
+        flat[i] = rng.choice(values)
+    return da.copy(data=flat.reshape(da.shape))
 
 
 def firm_kwargs(c):
@@ -678,6 +932,8 @@ def firm_full(ctx):
             ctx.count("firm:array_threshold")
         if c["idt"]:
             ctx.count("firm:integer_dtype=" + ("unsigned" if c["idt"].startswith("u") else "signed"))
+        if c["inf"]:
+            ctx.count("firm:infinite_values")
         if any(isinstance(t, xr.DataArray) for t in c["wts"]):
             ctx.count("firm:array_threshold_weight")
         if i < 2:
@@ -693,6 +949,7 @@ def firm_full(ctx):
             st, pc = core.call_impl(CAT.firm, c["fcst"], c["obs"], float(c["alpha"]), c["ths"], c["wts"],
                                     discount_distance=None if c["d"] is None else float(c["d"]), threshold_assignment=c["assign"], preserve_dims="all")
             if st == "ok":
+                ctx.count("firm:mean_of_cases_checked")
                 for v in FVARS:
                     check_mean_of_cases(ctx, "firm " + v, pc[v], c["w"], r[v], desc)
                 if not np.allclose(pc["firm_score"].values, (pc["overforecast_penalty"] + pc["underforecast_penalty"]).values, rtol=0, atol=1e-9, equal_nan=True):
@@ -714,46 +971,65 @@ def check_mean_of_cases(ctx, fn, per_case, weights, result, desc):
 
 
 def firm_murphy_sum(ctx):
-    """firm (lower) per case = sum_j w_j * Murphy elementary score at theta = threshold_j, on the implementation"""
+    """firm (lower) per case = sum_j w_j * Murphy elementary score at theta = threshold_j, on the implementation.
+    Observations and thresholds may be infinite (20 % of the cases); forecasts are finite or NaN (murphy_score's `fcst * 0.0`, see firm_grid)"""
     CAT, CON, _ = S()
     rng = ctx.rng
     grid = [Fraction(k, 2) for k in range(-4, 5)]
     for i in range(ctx.n(40, 400)):
         if not ctx.time_left():
             break
+        inf = rng.random() < 0.2
         sizes = gens.rand_sizes(rng, names=["a", "b"], maxdims=2, maxsize=3)
         fcst = gens.rand_da(rng, sizes, values=grid, nan_p=rng.choice([0.0, 0.15]))
         odims = gens.sub_dims(rng, sizes, p_drop=0.25)
         obs = gens.rand_da(rng, sizes, dims=odims, values=grid, nan_p=rng.choice([0.0, 0.15]))
+        if inf:
+            obs = poke_some(rng, obs, [INF, -INF], 0.3)
         k = rng.randint(1, 3)
         if rng.random() < 0.5:
-            ths = [float(t) for t in rng.sample(grid, k)]
+            ths = [float(t) for t in rng.sample(grid + ([INF, -INF] if inf else []), k)]
         else:      # per-case thresholds along the data dims, NaN included: thetas are then passed to murphy_score as a DataArray
             ths = [gens.rand_da(rng, sizes, dims=gens.sub_dims(rng, sizes, p_drop=0.4, keep_at_least=1), values=grid, nan_p=0.2) for _ in range(k)]
+            if inf:
+                ths = [poke_some(rng, t, [INF, -INF], 0.2) for t in ths]
         wts = [float(rng.choice([Fraction(1, 2), 1, 2, 3])) for _ in range(k)]
         alpha = float(rng.choice([Fraction(1, 4), Fraction(1, 2), Fraction(7, 10)]))
-        d = rng.choice([0, Fraction(1, 2), 1, 2])
+        d = rng.choice([0, Fraction(1, 2), 1, 2, INF])
+        functional = "quantile" if d == 0 else "expectile" if d == INF else "huber"
         st, pc = core.call_impl(CAT.firm, fcst, obs, alpha, ths, wts, discount_distance=float(d), preserve_dims="all")
         desc = {"fn": "firm vs murphy_score", "fcst": gens.da_repr(fcst), "obs": gens.da_repr(obs), "risk_parameter": alpha,
-                "categorical_thresholds": [gens.da_repr(t) for t in ths], "threshold_weights": wts, "discount_distance": d}
+                "categorical_thresholds": [gens.da_repr(t) for t in ths], "threshold_weights": wts, "discount_distance": d, "functional": functional}
         ctx.case(desc, st == "ok")
         ctx.count("firm:murphy_link_checked")
+        if inf:
+            ctx.count("firm:murphy_link_infinite")
         if st != "ok":
             ctx.violation("firm raised on a valid call", desc, "values", pc)
             continue
+        undefined = xr.zeros_like(pc["firm_score"], dtype=bool)     # (no case is left out: equal infinities are at distance 0 in both scores)
         for var, mvar in zip(FVARS, ("total", "overforecast", "underforecast")):
             tot = 0
             for t, wt in zip(ths, wts):
-                mu = CON.murphy_score(fcst, obs, t if isinstance(t, xr.DataArray) else [t], functional="quantile" if d == 0 else "huber", alpha=alpha,
-                                      huber_a=float(d) if d else None, decomposition=True, preserve_dims="all")[mvar]
+                mu = CON.murphy_score(fcst, obs, t if isinstance(t, xr.DataArray) else [t], functional=functional, alpha=alpha,
+                                      huber_a=float(d) if functional == "huber" else None, decomposition=True, preserve_dims="all")[mvar]
                 if not isinstance(t, xr.DataArray):
-                    mu = mu.sel(theta=t, drop=True)
+                    mu = mu.isel(theta=0, drop=True)
                 tot = tot + wt * mu
-            a, b = xr.broadcast(pc[var], tot)
-            b = b.transpose(*a.dims)
-            if not np.allclose(a.values, b.values, rtol=0, atol=1e-9, equal_nan=True):
-                ctx.violation(f"firm {var} != sum_j w_j * Murphy elementary score ({mvar}) at the thresholds", desc, str(b.values.tolist())[:200],
-                              str(a.values.tolist())[:200])
+            a, b, u = xr.broadcast(pc[var], tot, undefined)
+            b, u = b.transpose(*a.dims), u.transpose(*a.dims)
+            av, bv = np.where(u.values, NAN, a.values), np.where(u.values, NAN, b.values)
+            if not np.allclose(av, bv, rtol=1e-9, atol=1e-9, equal_nan=True):
+                fk = None
+                if inf and d != 0:       # is the deviation exactly the recorded finding (FIRM as the unrepaired code, Murphy right)?
+                    c = dict(fcst=fcst, obs=obs, alpha=Fraction(alpha), ths=ths, wts=wts, d=d, assign="lower")
+                    tru, leg = firm_oracle_arrays(c)[var], firm_oracle_arrays(c, legacy=True)[var]
+                    tru, leg = tru.transpose(*a.dims).reindex_like(a).values, leg.transpose(*a.dims).reindex_like(a).values      # same label order
+                    if np.allclose(np.where(u.values, NAN, leg), av, rtol=1e-9, atol=1e-9, equal_nan=True) and \
+                            np.allclose(np.where(u.values, NAN, tru), bv, rtol=1e-9, atol=1e-9, equal_nan=True):
+                        fk = FINDING_INF
+                ctx.violation(f"firm {var} != sum_j w_j * Murphy elementary score ({mvar}) at the thresholds", desc, str(bv.tolist())[:200],
+                              str(av.tolist())[:200], finding_key=fk)
 
 
 # ------------------------------------------------------------------------------------------
@@ -926,6 +1202,7 @@ def rms_full(ctx):
         if rng.random() < 0.5:
             st, pc = core.call_impl(EM.risk_matrix_score, c["fcst"], c["obs"], c["dw"], "sev", "prob", threshold_assignment=c["assign"], preserve_dims="all")
             if st == "ok":
+                ctx.count("rms:mean_of_cases_checked")
                 check_mean_of_cases(ctx, "risk_matrix_score", pc, c["w"], impl[1], desc)
                 f, o = xr.broadcast(c["fcst"], c["obs"])
                 other = [d for d in pc.dims]
